@@ -1,5 +1,6 @@
 (** C14 — sessions overlay their own writes on committed facts. *)
-From Aranya Require Import base.Tactics base.ListLex base.SortedAssoc model.Facts model.Session
+From Aranya Require Import base.Tactics base.ListLex base.SortedAssoc model.Facts model.FactsWorld model.Session
+     proofs.FactsWorldProofs
      proofs.FactsMaps proofs.FactsIndex proofs.SessionMerge proofs.SessionProofs proofs.C14Proofs
      gen.GenFacts.
 
@@ -47,3 +48,17 @@ Proof. exact session_call_frame. Qed.
 Check session_frame :
   forall (c : client) (s : session) (ops : list sop) (ok : bool), fst (fst (session_call c s ops ok)) = c.
 Print Assumptions session_frame.
+
+(** C12 + C14: a session opened on the fact index of any segment of any reachable store. *)
+Theorem session_on_reachable_store : session_on_reachable_store_stmt.
+Proof. exact session_on_reachable_store_proof. Qed.
+Check session_on_reachable_store :
+  forall (maxd : N), (2 <= maxd)%N ->
+  forall (ops : list op), ops_ok sworld0 ops ->
+  forall s sg, nth_error (w_segs (mrun maxd ops)) s = Some sg ->
+  exists ss, nth_error (sw_segs (srun ops)) s = Some ss /\
+    forall cs : list (list sop * bool),
+    let st := w_store (mrun maxd ops) in
+    exists sess, run_calls st (s_new (sg_facts sg)) cs = Ok sess /\
+                 session_answers st sess (fupds (sseg_head ss) (committed_writes cs)).
+Print Assumptions session_on_reachable_store.
